@@ -122,7 +122,7 @@ type Op struct {
 
 // PlanItem is an abstract transition.
 type PlanItem struct {
-	Action  string `json:"action"` // create-file, create-dir, create-link, delete, swap
+	Action  string `json:"action"` // create-file, create-dir, create-tree, create-link, delete, swap
 	Path    string `json:"path"`
 	Content int    `json:"content,omitempty"`
 	Exec    bool   `json:"exec,omitempty"`
@@ -359,6 +359,18 @@ func judge(c *Case, dir string) (violation string, st stats) {
 						continue
 					}
 					nw = tree.D(map[string]*core.Entry{"inner": tree.L("a")})
+				case "create-tree":
+					if old != nil {
+						continue
+					}
+					c2 := it.Content%5 + 1
+					nw = tree.D(map[string]*core.Entry{
+						"f1":    {Kind: tree.KFile, Digest: digest(contentFor(it.Content))},
+						"f2":    {Kind: tree.KFile, Digest: digest(contentFor(c2)), Executable: it.Exec},
+						"inner": tree.L("a"),
+					})
+					want[it.Path+"/f1"] = it.Content
+					want[it.Path+"/f2"] = c2
 				case "create-link":
 					if old != nil {
 						continue
@@ -495,7 +507,7 @@ func drawCase(rt *rapid.T) *Case {
 			op := &Op{Kind: "cycle", Full: rapid.Bool().Draw(rt, "full")}
 			for k := rapid.IntRange(1, 4).Draw(rt, "plan"); k > 0; k-- {
 				op.Plan = append(op.Plan, &PlanItem{
-					Action:  rapid.SampledFrom([]string{"create-file", "create-file", "swap", "create-dir", "create-link", "delete"}).Draw(rt, "action"),
+					Action:  rapid.SampledFrom([]string{"create-file", "create-file", "swap", "create-dir", "create-tree", "create-tree", "create-link", "delete"}).Draw(rt, "action"),
 					Path:    drawPath(rt, "plan.path"),
 					Content: rapid.IntRange(1, 5).Draw(rt, "content"),
 					Exec:    rapid.IntRange(0, 3).Draw(rt, "exec") == 0,
